@@ -39,13 +39,26 @@ def sgnNs (ns : F) : F := if isZero ns then 1 else npSign ns
 /-- `WilksTestStatistic.__call__`: `TS = 2 * sgn_ns * log_lambda` -/
 def ts (ns ll : F) : F := 2 * sgnNs ns * ll
 
-/-- `TS = -2 * nsgrad**2 / (4*nsgrad2)` (Python precedence: `((-2) * nsgrad**2) / (4*nsgrad2)`) -/
+/-- `-2 * nsgrad**2 / (4*nsgrad2)` (Python precedence: `((-2) * nsgrad**2) / (4*nsgrad2)`), the quotient
+itself; only meaningful for `b ≠ 0` -/
 def tsApex (a b : F) : F := ((-2) * (a * a)) / (4 * b)
+
+/-- the `ns == 0` branch of the Taylor variant as coded:
+
+    if nsgrad == 0 and nsgrad2 == 0: return 0.      # flat up to second order: apex value 0
+    TS = -2 * nsgrad**2 / (4*nsgrad2)
+
+`none` stands for the non-finite float (`±inf`) numpy returns for `a ≠ 0`, `b == 0`; the division is
+never totalised. -/
+def tsApex? (a b : F) : Option F :=
+  if isZero a && isZero b then some 0
+  else if isZero b then none
+  else some (tsApex a b)
 
 /-- `LLHRatioZeroNsTaylorWilksTestStatistic.__call__` given `a = grads[ns_pidx]` and
 `b = llhratio.calculate_ns_grad2(...)` -/
-def tsTaylor (ns ll a b : F) : F :=
-  if isZero ns then tsApex a b else 2 * npSign ns * ll
+def tsTaylor (ns ll a b : F) : Option F :=
+  if isZero ns then tsApex? a b else some (2 * npSign ns * ll)
 
 end ts
 
@@ -83,7 +96,45 @@ def nsGrad2 (N nSel : Nat) (ns : F) (gs : List F) : F :=
 def nsGrad2Multi (g2s fs : List F) : F :=
   sumF (List.zipWith (fun g f => g * (f * f)) g2s fs)
 
+/-- the part of a `ZeroSigH0SingleDatasetTCLLHRatio` object that `calculate_ns_grad2` depends on:
+`_cache_nsgrad_i`, filled by `evaluate`, cleared by `initialize_for_new_trial` -/
+structure LlhSt (F : Type) where
+  cache : Option (List F)
+
+inductive LlhErr where
+  | runtime      -- "The evaluate method needs to be called before the calculate_ns_grad2 method can be called!"
+  deriving DecidableEq, Repr
+
+/-- `__init__` / `initialize_for_new_trial` -/
+def LlhSt.fresh : LlhSt F := ⟨none⟩
+
+/-- `evaluate` at `ns` (stable regime): caches `nsgrad_i` -/
+def LlhSt.evaluate (_st : LlhSt F) (ns : F) (Xs : List F) : LlhSt F := ⟨some (Xs.map (nsGradI ns))⟩
+
+/-- `calculate_ns_grad2(ns, …)` on the object: uses whatever was cached last -/
+def LlhSt.grad2 (st : LlhSt F) (N nSel : Nat) (ns : F) : Except LlhErr F :=
+  match st.cache with
+  | none => .error .runtime
+  | some gs => .ok (nsGrad2 N nSel ns gs)
+
 end grad2
+
+section tshist
+variable {F : Type} [Add F] [Sub F] [Mul F] [Div F] [Neg F] [LT F] [DecidableLT F]
+  [OfNat F 0] [OfNat F 1] [OfNat F 2] [OfNat F 4] [Transc F]
+
+/-- the `ns == 0` branch of the Taylor variant on an LLH-ratio *object* in an arbitrary earlier state:
+the code first evaluates the LLH ratio at the fit parameters (refreshing the per-event cache), takes
+`a = grads[ns_pidx]` from that evaluation and then asks for the second derivative.  Returns the new object
+state too. -/
+def tsTaylorOn (st : LlhSt F) (N nSel : Nat) (Xs : List F) : LlhSt F × Except LlhErr (Option F) :=
+  let st' := st.evaluate 0 Xs
+  let a := nsGrad N nSel 0 Xs
+  match st'.grad2 N nSel 0 with
+  | .ok b => (st', .ok (tsApex? a b))
+  | .error e => (st', .error e)
+
+end tshist
 
 /-! ## p-values from trials -/
 
@@ -142,6 +193,17 @@ def pvalMixed (op : Cmp) (tsv : List F) (thr switchAt : F) (eta : Option F) : Ro
   let eta' := match eta with | some e => e | none => switchAt
   if thr < switchAt then .trials (pval op tsv thr) else .gammaFit eta'
 
+/-- `calculate_pval_from_gammafit_to_trials` with the fitted survival function `sf` abstract (iminuit +
+scipy are not modelled): `ValueError` below the truncation point, else `alpha * sf(thr) / sf(eta)` with
+`alpha` the fraction of trials above `eta`.  (`n_max` truncation of the sample happens before.) -/
+def pGamma (sf : F → F) (tsv : List F) (thr eta : F) : Except PvErr F :=
+  if thr < eta then .error .valueError
+  else if tsv.length = 0 then .error .zeroDivision
+  else .ok (pOf (countGt tsv eta) tsv.length / sf eta * sf thr)
+
+/-- `ts_vals[:n_max]` -/
+def truncSample (tsv : List F) (nMax : Nat) : List F := if nMax < tsv.length then tsv.take nMax else tsv
+
 end pval
 
 /-! ## polynomial inversion (`polynomial_fit` after `np.polyfit`) -/
@@ -149,6 +211,7 @@ end pval
 inductive PolyErr where
   | valueError        -- degree not 1 or 2
   | indexError        -- fewer coefficients than the degree needs (cannot happen with np.polyfit)
+  | notFinite         -- the code returns inf/NaN: division by a vanishing leading coefficient
   deriving DecidableEq, Repr
 
 section poly
@@ -167,25 +230,54 @@ def polyDisc (a b c p : F) : F := b * b - 4 * a * (c - p)
 /-- degree 2: `ns = (-b + np.sqrt((b**2) - 4*a*(c - p_thr))) / (2*a)` -/
 def polyInvert2 (a b c p : F) : F := (-b + Transc.sqrt (polyDisc a b c p)) / (2 * a)
 
-/-- does `polynomial_fit` fall back to a straight line?  (`deg == 2 and params[0] > 0`) -/
-def polySwitch (deg : Nat) (params : List F) : Bool :=
-  deg == 2 && (match params with | a :: _ => decide (0 < a) | [] => false)
+/-- does `polynomial_fit` fall back to a straight line?
+`deg == 2 and (params[0] > 0 or params[1]**2 - 4*params[0]*(params[2] - p_thr) < 0)`:
+the fitted parabola opens upwards, or it never reaches `p_thr`. -/
+def polySwitch (deg : Nat) (params : List F) (pthr : F) : Bool :=
+  deg == 2 && (match params with
+    | a :: b :: c :: _ => decide (0 < a) || decide (polyDisc a b c pthr < 0)
+    | a :: _ => decide (0 < a)
+    | [] => false)
+
+/-- `x == 0` for a non-NaN float -/
+def polyIsZero (x : F) : Bool := !(decide (x < 0)) && !(decide (0 < x))
 
 /-- `polynomial_fit(ns, p, p_weight, deg, p_thr)` where `fit d` is the coefficient list `np.polyfit`
 returns for degree `d` on the given sample (recorded, not modelled).  Result: the signal strength and
-the degree that was finally used. -/
+the degree that was finally used; `notFinite` when the code divides by a zero leading coefficient (it
+then returns inf/NaN instead of a signal strength). -/
 def polyFit (fit : Nat → List F) (deg : Nat) (pthr : F) : Except PolyErr (F × Nat) :=
   let params := fit deg
-  let sw := polySwitch deg params
+  let sw := polySwitch deg params pthr
   let deg' := if sw then 1 else deg
   let params' := if sw then fit 1 else params
   if deg' = 1 then
     match params' with
-    | a :: b :: _ => .ok (polyInvert1 a b pthr, 1)
+    | a :: b :: _ => if polyIsZero a then .error .notFinite else .ok (polyInvert1 a b pthr, 1)
     | _ => .error .indexError
   else if deg' = 2 then
     match params' with
-    | a :: b :: c :: _ => .ok (polyInvert2 a b c pthr, 2)
+    | a :: b :: c :: _ => if polyIsZero a then .error .notFinite else .ok (polyInvert2 a b c pthr, 2)
+    | _ => .error .indexError
+  else .error .valueError
+
+/-- the policy of the pinned revision (switch on `params[0] > 0` only): kept to state what was wrong.
+`notFinite` also stands for the NaN of `np.sqrt` of a negative discriminant. -/
+def polyFitPinned (fit : Nat → List F) (deg : Nat) (pthr : F) : Except PolyErr (F × Nat) :=
+  let params := fit deg
+  let sw := deg == 2 && (match params with | a :: _ => decide (0 < a) | [] => false)
+  let deg' := if sw then 1 else deg
+  let params' := if sw then fit 1 else params
+  if deg' = 1 then
+    match params' with
+    | a :: b :: _ => if polyIsZero a then .error .notFinite else .ok (polyInvert1 a b pthr, 1)
+    | _ => .error .indexError
+  else if deg' = 2 then
+    match params' with
+    | a :: b :: c :: _ =>
+      if polyIsZero a then .error .notFinite
+      else if polyDisc a b c pthr < 0 then .error .notFinite
+      else .ok (polyInvert2 a b c pthr, 2)
     | _ => .error .indexError
   else .error .valueError
 
